@@ -13,7 +13,8 @@ import checklib
 PLAN = {
     "C03": {"quick": [("fixed_w3", False), ("dyn_w3", False), ("prefix_F2_fixed", True), ("prefix_F3_dyn", True), ("prefix_F8_fixed", True)],
             "thorough": [("fixed_w3", False), ("dyn_w3", False), ("fixed_w4", False), ("dyn_w4", False),
-                         ("prefix_F2_fixed", True), ("prefix_F2_dyn", True), ("prefix_F3_dyn", True), ("prefix_F8_fixed", True)]},
+                         ("prefix_F2_fixed", True), ("prefix_F2_dyn", True), ("prefix_F3_dyn", True), ("prefix_F8_fixed", True),
+                         ("seeded_pop_fixed", True), ("seeded_shlin_dyn", True), ("seeded_copyrange_fixed", True)]},
     "C04": {"quick": [("fixed_w3", False), ("prefix_F2_fixed", True)], "thorough": [("fixed_w4", False), ("dyn_w4", False), ("prefix_F2_dyn", True)]},
     "C18": {"quick": [("dyn_w3", False), ("prefix_F3_dyn", True)], "thorough": [("dyn_w4", False), ("prefix_F3_dyn", True)]},
     "C01": {"quick": [("dyn_w3", False)], "thorough": [("dyn_w4", False), ("fixed_w4", False)]},
